@@ -65,7 +65,7 @@ func genForFamily(prop string, rng *rand.Rand, family string) *sim.Scenario {
 	finTasks := []string{"*", "*", "FinalisingStepRouteTrafficToStable", "FinalisingStepRouteTrafficToNew", "RestoreStableService", "RemoveCanaryService", "ResumeWorkload", "ReleaseWorkloadControl"}
 	// a second user action that arrives while a cleanup sequence (success, rollback, supersession) is in flight
 	addDuringCleanup := func() {
-		s.Events = append(s.Events, sim.Injected{AtFinalising: finTasks[rng.Intn(len(finTasks))], Action: []string{"delete", "disable"}[rng.Intn(2)], Immediate: rng.Intn(2) == 0})
+		s.Events = append(s.Events, sim.Injected{AtFinalising: finTasks[rng.Intn(len(finTasks))], Action: []string{"delete", "disable", "delete", "disable", "v3"}[rng.Intn(5)], Immediate: rng.Intn(2) == 0})
 	}
 	// forward jumps over at least one step need plans with >= 3 steps: make them common for the gate / traffic properties
 	if (prop == "C02" || prop == "C03" || prop == "C01" || prop == "C11") && rng.Intn(4) == 0 {
